@@ -835,7 +835,8 @@ Variable exprs_of : stepT SX -> list sexpr.          (* the parsed placeholders 
 Definition step_check (inplace : bool) (e : exst HX JX SX MX ty OT CT IT ST DT JT) (x : stepT SX)
   : list N * option ty :=
   match x_matrix e with
-  | None => (concat (map snd (fst (check_seq inplace [] (exprs_of x)))), None)
+  | None => (* the global table's entry: "matrix": NewEmptyStrictObjectType() *)
+            (concat (map snd (fst (check_seq inplace [("matrix", TObj [] None)] (exprs_of x)))), None)
   | Some m =>
       let '(rs, env') := check_seq inplace [("matrix", m)] (exprs_of x) in
       (concat (map snd rs), lookup "matrix" env')
@@ -858,3 +859,35 @@ Proof.
                None None None None None None None), (mkStep None true true None tt).
   vm_compute. discriminate.
 Qed.
+
+(* the hypotheses of the linter-level theorems are satisfiable by a non-trivial
+   value: a bundle whose step checks are the modelled expression checker run
+   over the placeholders of the step (here: every step evaluates
+   matrix.x.*.y and then matrix.x.y), on a workflow of two jobs *)
+Definition example_checks : checks unit unit unit unit N ty unit unit unit unit unit unit :=
+  mkChecks (fun _ _ => []) (fun _ _ => []) (fun _ _ => []) (fun _ _ => []) (fun _ => [])
+           (fun _ => []) (fun _ => []) (fun _ _ => []) (fun _ => []) (fun _ => [])
+           (fun _ => []) (fun _ _ => []) (fun _ => [])
+           (fun _ => tt) (fun _ => tt) (fun _ => tt) (fun _ => tt) (fun _ => tt) (fun _ => tt)
+           (fun _ => []) (fun _ _ => [])
+           (fun _ _ _ => (match lookup "matrix" leak_env with Some m => m | None => TAny end, []))
+           (fun e _ => ([], x_matrix e))
+           (step_check (fun _ => [leak_e1; leak_e2]) false)
+           (fun e _ => ([], x_matrix e)).
+
+Example example_checks_pure : pure_checks example_checks.
+Proof. intros e x. apply step_check_pure. Qed.
+
+Definition example_wf : wfT unit unit unit unit :=
+  mkWf None false false false false tt
+    [mkJob "a" [] (Some ["ubuntu-latest"]) None (Some tt) ["o"] false [mkStep (Some "s") true true None tt] tt;
+     mkJob "b" ["a"] (Some ["windows-latest"]) None None [] false [mkStep None true true None tt] tt].
+
+Example example_wf_nodup : NoDup (map (@jkey _ _ _) (w_jobs example_wf)).
+Proof. repeat constructor; cbn; intuition discriminate. Qed.
+
+(* in job a the second placeholder of the step is reported (class 3: receiver of
+   object dereference must be an object), unaffected by the first one *)
+Example example_step_diags :
+  map snd (lint_jobs (linter example_checks) example_wf) = [[[]; [3%N]; []]; [[]; [2%N; 2%N]; []]].
+Proof. vm_compute. reflexivity. Qed.
